@@ -74,6 +74,7 @@ class Prov:
         self._defs = {}
         self._closure_sites = None
         self.through_params = False
+        self.callers = None
         self.stop_tags = set()
         self.inline = True
 
@@ -511,19 +512,20 @@ class Prov:
             return self._phi([self.resolve_env(x) for x in t[1]])
         return t
 
-    def root(self, t, depth=48, through_params=False, stop_tags=(), inline=True):
+    def root(self, t, depth=48, through_params=False, stop_tags=(), inline=True, callers=None):
         """Peel projections and transparent calls.  Returns a list of (root, path) alternatives
         (several for phi).  path is a tuple of steps from the root outwards.  With through_params,
         a parameter is followed into the callers' arguments (context-insensitively)."""
         out = []
-        old = (self.through_params, self.stop_tags, self.inline)
+        old = (self.through_params, self.stop_tags, self.inline, self.callers)
         self.through_params = through_params
         self.stop_tags = set(stop_tags)
         self.inline = inline
+        self.callers = frozenset(callers) if callers is not None else None   # restrict parameter following to call sites inside these bodies
         try:
             self._root(t, (), depth, out)
         finally:
-            self.through_params, self.stop_tags, self.inline = old
+            self.through_params, self.stop_tags, self.inline, self.callers = old
         res = []
         for x in out:
             if x not in res:
@@ -582,7 +584,16 @@ class Prov:
             if tag == 'residual':
                 # from_residual builds an error value (inside Ready/Some wrappers): its Ok side does not exist
                 infeasible = False
+                rty = (self.call_term(self.unbound(t)).get('self_ty') or '')
+                if rty.split('<')[0].endswith('Option'):
+                    # `?` inside a function returning Option: the residual is None
+                    for st in path:
+                        if st[0] == 'v':
+                            infeasible = st[1] == 'Some'
+                            break
                 for st in path:
+                    if infeasible:
+                        break
                     if st in (('v', 'Ok'), ('v', 'Continue'), ('v', 'Pending'), ('v', 'None')):
                         infeasible = True
                         break
@@ -691,7 +702,7 @@ class Prov:
         """values (terms in the callers' bodies) that flow into parameter t = ('param', fn, n):
         for a named fn, the arguments at every resolved call site in the crate; for a closure, the
         payload handed over by a known std combinator the closure is passed to."""
-        key = ('psrc',) + t
+        key = ('psrc', self.callers) + t
         if key in self.memo:
             return self.memo[key]
         self.memo[key] = []  # recursion guard
@@ -730,6 +741,8 @@ class Prov:
                                     out.append((recv, steps))
         else:
             for g in self.F.fns.values():
+                if self.callers is not None and g.id not in self.callers:
+                    continue
                 for bb, ct in g.calls():
                     if self.F.callee_fn(ct) is f and n - 1 < len(ct['args']):
                         out.append((self.operand(g, ct['args'][n - 1]), ()))
